@@ -68,7 +68,7 @@ def run_verus_unit(uname, workdir, prop=None):
     res['unit_file'] = path
     res['unit_lines'] = text.count('\n')
     ulines = text.split('\n')
-    r = run_verus(path, rlimit=getattr(mod, 'RLIMIT', None), extra=getattr(mod, 'VERUS_ARGS', ()))
+    r = run_verus(path, rlimit=getattr(mod, 'RLIMIT', None), extra=getattr(mod, 'VERUS_ARGS', ()), multiple_errors=getattr(mod, 'MULTIPLE_ERRORS', 10))
     res['cmd'] = r['cmd']
     res['wall'] = r['wall']
     res['drops'] = u.drops
